@@ -10,7 +10,9 @@ from mc.ref import linalg as L
 
 RULE = ("single operations: every gate of the alphabet x every register width x every ORDERED tuple of distinct qubit indices; "
         "sequences: every circuit of length <= L over a 3-qubit operation alphabet; concatenation: every ordered pair of pool "
-        "circuits; simulators: every circuit of length <= L x every native/non-native labeling (2^L) x initial states. "
+        "circuits; simulators: every circuit of length <= L x every native/non-native labeling (2^L) x initial states; additionally every single operation of the "
+        "gate alphabet (incl. parametric gates at the exact values 0, pi, 2pi and asymmetric diagonal gates) x width x ordered tuple, and every sequence of the "
+        "sequence alphabet, through SymbolicSimulator and the base-class simulator with everything / nothing native. "
         "non-trivial = reference unitary differs from identity and (single ops) index tuple is not (0..k-1) on k qubits, "
         "(sequences) ops do not all commute trivially i.e. length >= 2; distinct = canonical case json")
 ASSUMPTIONS = ["numpy dense arithmetic is correct", "the gate's own numeric matrix (gate.matrix) is taken as given (C02/C07 decide it)",
@@ -230,7 +232,7 @@ def empty_case(case):
     return r
 
 
-FUNCS = {"single_ops": single_op, "single_ops_symbolic": single_op, "sequences": sequence, "concat": concat, "simulators": simulate,
+FUNCS = {"sim_single": simulate, "sim_sequences": simulate, "single_ops": single_op, "single_ops_symbolic": single_op, "sequences": sequence, "concat": concat, "simulators": simulate,
          "multiphase": multiphase, "empty": empty_case}
 
 TH = 0.3
@@ -242,7 +244,15 @@ def gate_alphabet():
          G("XX", TH), G("YY", TH), G("ZZ", TH), G("XY", TH), G("MS", 0.3, -1.1), G("custom1"), G("custom2"), G("custom3"),
          W("controlled", G("X"), k=1), W("controlled", G("X"), k=2), W("controlled", G("custom2"), k=1), W("controlled", G("custom3"), k=1),
          W("controlled", G("CNOT"), k=2), W("controlled", G("RY", TH), k=3), W("dagger", G("T")), W("dagger", G("custom2")), W("power", G("T"), e=3),
-         W("controlled", W("dagger", G("custom1")), k=1), G("custom2p", 0.3, 0.7)]
+         W("controlled", W("dagger", G("custom1")), k=1), G("custom2p", 0.3, 0.7),
+         # asymmetric diagonal gates (a diagonal fast path must still honour the order of the index tuple)
+         W("controlled", G("RZ", TH), k=1), W("controlled", G("RZ", TH), k=2), W("controlled", G("T"), k=1), W("controlled", G("ZZ", TH), k=1)]
+    # exact special parameter values: a gate at angle 0 / pi / 2pi is still a gate (GPi(0) = X, MS(0,0), RX(2pi) = -I ...)
+    import math
+    for name, npar in (("RX", 1), ("RY", 1), ("RZ", 1), ("RH", 1), ("PHASE", 1), ("GPi", 1), ("GPi2", 1), ("CPHASE", 1), ("XX", 1), ("YY", 1),
+                       ("ZZ", 1), ("XY", 1), ("MS", 2), ("U3", 3), ("custom2p", 2)):
+        for v in (0, 0.0, math.pi, 2 * math.pi):
+            b.append(G(name, *([v] * npar)))
     return b
 
 
@@ -258,7 +268,7 @@ def ops3():
     for g in (G("T"), G("RX", TH), G("custom1")):
         out += [{"gate": g, "q": [q]} for q in range(3)]
     out += [{"gate": G("U3", 0.3, -1.1, 2.5), "q": [1]}]
-    for g in (G("CNOT"), G("custom2"), G("CPHASE", TH)):
+    for g in (G("CNOT"), G("custom2"), G("CPHASE", TH), G("SWAP")):
         out += [{"gate": g, "q": list(p)} for p in itertools.permutations(range(3), 2)]
     for g in (W("controlled", G("X"), k=2), G("custom3")):
         out += [{"gate": g, "q": list(p)} for p in itertools.permutations(range(3), 3)]
@@ -328,6 +338,18 @@ def run(run):
                 for labels in itertools.product([1, 0], repeat=ln):
                     # a MultiPhaseOperation can be declared native: the scripted native method implements it
                     cases.append({"ops": ops, "n": n, "labels": list(labels)})
+    # every single operation of the gate alphabet through the simulators (bundled one; base class with everything native / nothing native)
+    scases = []
+    for c in secs[0].cases:
+        if c["n"] <= 4:
+            for labels in (None, [1], [0]):
+                scases.append({"ops": [{"gate": c["gate"], "q": c["q"]}], "n": c["n"], "labels": labels})
+    secs.append(Section("sim_single", scases, simulate, desc="every gate x width x ordered index tuple through SymbolicSimulator and the base-class simulator (all native / none native)"))
+    # every sequence of the sequence alphabet through the bundled simulator and the base class with nothing native
+    qcases = [{"ops": [A[i] for i in combo], "n": 3, "labels": lab} for ln in (1, 2) for combo in itertools.product(range(len(A)), repeat=ln) for lab in (None, [0] * ln)]
+    if thorough:
+        qcases += [{"ops": [A[i] for i in combo], "n": 3, "labels": None} for combo in itertools.product(range(0, len(A), 2), repeat=3)]
+    secs.append(Section("sim_sequences", qcases, simulate, desc="all circuits of length <= 2 over the sequence alphabet through SymbolicSimulator / base-class simulator"))
     secs.append(Section("simulators", cases, simulate, desc="every circuit of length <= %d x every native/non-native labeling x 5 initial states" % SL))
     cases = [{"n": n, "thetas": [0.1 + 0.37 * k * (1 if s == 0 else -1.3) for k in range(2 ** n)], "i": i} for n in (1, 2, 3) for s in (0, 1)
              for i in list(range(2 ** n)) + [-1]]
